@@ -437,8 +437,15 @@ func (e *Engine) CompileTemplate(name string) (*CompiledTemplate, error) {
 		return nil, err
 	}
 
-	// Compile the template
-	return CompileTemplate(template)
+	// Compile the template. The compiled form carries the name it was asked for:
+	// that is the name the engine knows the template by (a template registered
+	// with RegisterTemplate may have no name of its own, or another one)
+	compiled, err := CompileTemplate(template)
+	if err != nil {
+		return nil, err
+	}
+	compiled.Name = name
+	return compiled, nil
 }
 
 // RegisterCompiledTemplate registers a compiled template with the engine
